@@ -27,7 +27,7 @@ ASSUMPTIONS = ["arguments of undocumented types (bytes for str parameters, dict 
                "objects from encoded=True routes need not stringify (the caller vouches for the text)",
                "MemoryError/RecursionError raised by the interpreter outside the quoter on huge inputs is inconclusive, not a violation"]
 
-HOSTILE = ["127.0.0.1%a:b1", "::1%a/b", "::1%a@b", "1.2.3.4%", "::1%", "fe80::1%a]b", "fe80::1%[", "1.2.3.4%5", "::ffff:1.2.3.4%x:1", ".", "..", "./", "a/..", "../..", "/.", "./.", "[]", "[v]", "[v1.]", "][", "//:", "//@", ":0", "%", "%%", "%a", "//[", "//]", "//[]", "//[v]", "//[v1.]:", "//[::1]x", "//[::1]:", "//[::1]:x", "//@:", "//:@", "//u@:0", "//:0",
+HOSTILE = [":8080", "user@", "u:p@:81", "git:@", "@", ":", "@:", ":@", "h:x", "u@h:99999", "h:80:80", "127.0.0.1%a:b1", "::1%a/b", "::1%a@b", "1.2.3.4%", "::1%", "fe80::1%a]b", "fe80::1%[", "1.2.3.4%5", "::ffff:1.2.3.4%x:1", ".", "..", "./", "a/..", "../..", "/.", "./.", "[]", "[v]", "[v1.]", "][", "//:", "//@", ":0", "%", "%%", "%a", "//[", "//]", "//[]", "//[v]", "//[v1.]:", "//[::1]x", "//[::1]:", "//[::1]:x", "//@:", "//:@", "//u@:0", "//:0",
            "http://", "http://@", "http://:", "http://:80", "http://[", "http://[]:80", "http://[::1", "http://::1]", "http://[::1]]", "http://[[::1]]", "http://[v1.x]:99999",
            "http://h:", "http://h:x", "http://h:-1", "http://h:99999", "http://h:８０", "http://u:p@", "http://@h", "http://%", "http://h/%", "http://h/%%%", "http://h?%", "http://h#%",
            "http://h:80:80", "//h:0x50", "http://[v1.]/", "http://[V]/", "http://[vg.x]/", "http://[1.2.3.4]/", "http://[fe80::1%]/", "http://[fe80::1%25]/", "http://[::1%zone]/",
@@ -96,6 +96,7 @@ class Probe:
     def __init__(self, ctx, Y, e):
         self.ctx, self.Y, self.e = ctx, Y, e
         self.rejected = 0
+        self.big = False
 
     def call(self, what, f, *a, **k):
         try:
@@ -104,8 +105,12 @@ class Probe:
             self.rejected += 1
             return ("rej", None)
         except (MemoryError, RecursionError) as ex:
-            self.ctx.label("inconclusive:" + type(ex).__name__)
-            return ("rej", None)
+            if self.big:
+                self.ctx.label("inconclusive:" + type(ex).__name__)
+                return ("rej", None)
+            fr = _frame(ex.__traceback__, self.Y)
+            self.ctx.check(False, "unexpected exception type %s in %s" % (type(ex).__name__, fr), observed={"call": what, "exc": repr(ex)[:200]}, expected="a result, ValueError or TypeError", entry=None)
+            return ("exc", None)
         except BaseException as ex:  # noqa: BLE001
             if isinstance(ex, (KeyboardInterrupt, SystemExit)) or type(ex).__name__ in ("CheckFailed", "Abort"):
                 raise
@@ -166,6 +171,7 @@ def check_calls(ctx, backend, e, text):
         make = ent.make
         ok_na = not (ent.needs and not ent.needs(t))
     P = Probe(ctx, Y, e)
+    P.big = len(t) > 5000
     r = P.call("make:" + e, make, Y, t)
     degenerate = any(x in t for x in ("[]", "//:", "//@", "@:", ":@", "[v", "]["))
     if r[0] == "ok" and r[1] is not None and type(r[1]) is Y.URL:
